@@ -456,7 +456,7 @@ func seedConstructionDeterminism() []Viol {
 	for round := 0; round < 2; round++ {
 		for _, n := range names {
 			fresh, _ := world.NewEnv(ledgerEnv(2))
-			a, b := uni.SeedBuilder(fresh, n), uni.SeedBuilder(used, n)
+			a, b := uni.SeedBuilderOn(fresh, n), uni.SeedBuilderOn(used, n)
 			same := a.Failed == b.Failed
 			if same && a.Failed == "" {
 				same = a.W.Hash(true) == b.W.Hash(true)
